@@ -10,7 +10,8 @@ import pandas as pd
 
 from common import R
 
-LEAN_MODULES = ["PyomaVerif.Props.C19", "PyomaVerif.Mutants.C19"]
+LEAN_MODULES = ["PyomaVerif.Props.C19", "PyomaVerif.Props.C19Geo2", "PyomaVerif.Props.C19Plot", "PyomaVerif.Mutants.C19",
+                "PyomaVerif.Mutants.C19Geo2"]
 THEOREMS = [
     "PV.C19.C19_flatten_single",
     "PV.C19.C19_flatten_multi",
@@ -41,6 +42,28 @@ THEOREMS = [
     "PV.C19.C19_map_unknown",
     "PV.C19.C19_displace",
     "PV.C19.C19_defgeo1_forms",
+    "PV.C19.C19_names_geo2",
+    "PV.C19.C19_defgeo2_forms",
+    "PV.C19.C19_defgeo2_names",
+    "PV.C19.C19_defgeo1_names",
+    "PV.C19.C19_defgeo2_reject_iff",
+    "PV.C19.C19_defgeo1_reject_iff",
+    "PV.C19.C19_default_sign",
+    "PV.C19.C19_optional_geo2_sign",
+    "PV.C19.C19_displace_default_sign",
+    "PV.C19.C19_mapCell_not_nan",
+    "PV.C19.C19_map_zero_checked",
+    "PV.C19.C19_map_sensor_checked",
+    "PV.C19.C19_map_cstr_aligned",
+    "PV.C19.C19_map_cstr_labelwise",
+    "PV.C19.C19_dot_scale",
+    "PV.C19.C19_plot_mode2",
+    "PV.C19.C19_plot_geo2_pipeline",
+    "PV.C19.C19_plot_mode2_sensor",
+    "PV.C19.C19_plot_mode2_cstr",
+    "PV.C19.C19_plot_mode2_zero",
+    "PV.C19.C19_plot_mode1_arrow",
+    "PV.C19.C19_plot_geo1_aligned",
     "PV.C19M.prefix_geo2_optional_fails",
     "PV.C19M.prefix_defgeo1_forms_fails",
     "PV.C19M.firstdict_map_fails",
@@ -48,6 +71,11 @@ THEOREMS = [
     "PV.C19M.shift_bgnodes_fails",
     "PV.C19M.positional_align_fails",
     "PV.C19M.refcount_flatten_fails",
+    "PV.C19M.lazy_reorder_cstr_fails",
+    "PV.C19M.zeros_default_sign_fails",
+    "PV.C19M.sign_on_coord_displace_fails",
+    "PV.C19M.scale_twice_fails",
+    "PV.C19M.table_order_arrows_fails",
 ]
 RULE = (
     "correspondence: generated sheet dictionaries (1..12 sensor names, single setup or 2..4 setups with 1..3 references, "
@@ -55,7 +83,10 @@ RULE = (
     "single-fault corruption, all name forms) sent as exact rationals / strings to the Lean model and to check_on_geo1/2, "
     "flatten_sns_names, def_geo1/def_geo2 (valid sets in every argument form AND the same single faults, incl. DataFrame "
     "directions with renamed / re-ordered row labels and mapping / sign frames labelled in another order), dfphi_map_func: same exception class or the same tables cell by cell "
-    "(numbers exactly; mapped values and displacements at 1e-12). oracle: the statement with plain dict look-ups on the "
+    "(numbers exactly; mapped values and displacements at 1e-12); the display pipeline def_geo1 + plot_mode_geo1 / def_geo2 + "
+    "plot_mode_geo2_mpl against the model's defPlotGeo1 / defPlotGeo2: start and end point of every arrow, every displaced point, as "
+    "held by the Agg artists (every argument form, scaleF in {0, 0.5, 1, 2, 5, 10, -1.5}, colour fixed or 'cmap', background present "
+    "or absent, shapes of another length and single table faults; 1e-11). oracle: the statement with plain dict look-ups on the "
     "generating spec, plus Agg artists of plot_mode_geo1 / plot_mode_geo2_mpl; every function is also used twice on the "
     "caller's own (un-copied) tables, geometry 1 and 2 are defined from shared tables on two setup objects, and the caller's "
     "tables / arrays are monitored for modification. distinct = distinct (function, shape/"
@@ -69,6 +100,8 @@ ASSUMPTIONS = [
     "sheets are DataFrames as read_excel(index_col=0) delivers them (openpyxl absent: frames are built directly)",
     "sensor / constraint names are strings other than '0', '0.0', 'interp', 'nan' that do not parse as floats; numeric mapping cells are 0",
     "column labels of one table are distinct; coordinate row labels are distinct in the permutation theorems",
+    "display: coordinate / direction / sign cells are numbers or NaN; the mode shape has one real component per sensor (a shape of another length: both lengths >= 2, numpy broadcasting of a length-1 axis is not modelled)",
+    "label-wise constraint combination (C19_map_cstr_labelwise): sensor names distinct, constraint sheet rectangular with distinct row and column labels",
 ]
 
 NAN = float("nan")
@@ -976,6 +1009,119 @@ def corr_mapphi(ctx, gen):
         ctx.count(f"mapphi_{tag}_{model.get('err', 'ok')}")
 
 
+def defgeo_inp(which, args, ref_ind):
+    """the arguments of def_geo1 / def_geo2 as the model's JSON"""
+    inp = {"names": names_json(args["sens_names"]), "ref_ind": ref_ind}
+    if which == 1:
+        inp.update(coord=tbl_json(args["sens_coord"]), dir=_arrarg(args["sens_dir"]), lines=_arrarg(args["sens_lines"]),
+                   bgNodes=_arrarg(args["bg_nodes"]), bgLines=_arrarg(args["bg_lines"]), bgSurf=_arrarg(args["bg_surf"]))
+    else:
+        inp.update(pts=tbl_json(args["pts_coord"]), map=tbl_json(args["sens_map"]), cstr=_arrarg(args["cstr"]),
+                   sign=_arrarg(args["sens_sign"]), lines=_arrarg(args["sens_lines"]), surf=_arrarg(args["sens_surf"]),
+                   bgNodes=_arrarg(args["bg_nodes"]), bgLines=_arrarg(args["bg_lines"]), bgSurf=_arrarg(args["bg_surf"]))
+    return inp
+
+
+def drawn(S, which, args, ref_ind, phi, scale, color="red"):
+    """def_geo1 + plot_mode_geo1 / def_geo2 + plot_mode_geo2_mpl on a new setup object (Agg): the coordinates the
+    artists hold.  geo1: (scatter offsets, [segment of arrow k]); geo2: scatter offsets of the displaced points."""
+    import matplotlib.pyplot as plt
+    from mpl_toolkits.mplot3d.art3d import Path3DCollection
+
+    s, _ = call_defgeo(S, which, args, ref_ind)
+    Phi = np.column_stack([np.zeros(len(phi)), np.array(phi, float)])
+    try:
+        if which == 1:
+            fig, ax = s.plot_mode_geo1(_res(Phi), 2, scaleF=scale)
+            n = len(s.geo1.sens_names)
+            # plt_nodes comes first, then one line per arrow, then the background and the sensor lines
+            off = np.column_stack([np.asarray(a, float) for a in ax.collections[0]._offsets3d])
+            segs = [np.column_stack([np.asarray(a, float) for a in ln._verts3d]) for ln in ax.lines[:n]]
+            return off, segs
+        fig, ax = s.plot_mode_geo2_mpl(_res(Phi), 2, scaleF=scale, color=color)
+        # the background nodes (if any) are scattered first, then the displaced points (one scatter unless 'cmap')
+        sc = [c for c in ax.collections if isinstance(c, Path3DCollection)]
+        P = s.geo2.pts_coord.shape[0]
+        if color == "cmap":
+            pts = sc[-P:]
+            return np.array([[float(np.asarray(a, float).ravel()[0]) for a in c._offsets3d] for c in pts]).reshape(P, 3)
+        return np.column_stack([np.asarray(a, float) for a in sc[-1]._offsets3d])
+    finally:
+        plt.close("all")
+
+
+def _plot_summary(which, res):
+    if not res[0]:
+        return {"err": res[1]}
+    if which == 1:
+        return {"nodes": res[1][0].tolist(), "arrows": [g.tolist() for g in res[1][1]]}
+    return {"points": np.asarray(res[1]).tolist()}
+
+
+def _same_orow(mrow, real, tol):
+    return len(mrow) == len(real) and all(same_cell(None if m is None else ["n", m], v, tol) for m, v in zip(mrow, real))
+
+
+def corr_plot(ctx):
+    """the whole display pipeline — def_geo1 + plot_mode_geo1, def_geo2 + plot_mode_geo2_mpl — against the model's
+    defPlotGeo1 / defPlotGeo2: the coordinates held by the Agg artists (arrow k = line k: start and end point;
+    displaced point i = row i of the scatter), for every argument form, with and without constraints / sign /
+    background, and a malformed stream (shape of another length, single faults of the tables)."""
+    rng = ctx.rng
+    S = _setup_cls()
+    TOL = 1e-11
+    for it in range(ctx.n(70, 700)):
+        which = 1 + it % 2
+        spec = (gen_geo1 if which == 1 else gen_geo2)(rng)
+        form = rng.choice([f for f in FORMS if names_form(spec, f) is not None])
+        arrays = rng.random() < 0.5
+        tag = "valid"
+        phi = [round(rng.uniform(-3, 3), 3) if rng.random() < 0.8 else float(rng.randint(-2, 2)) for _ in spec["flat"]]
+        scale = rng.choice([1, 1, 2, 5, 10, 0.5, -1.5, 0])
+        c = rng.random()
+        if c < 0.08 and len(phi) >= 2:
+            phi = phi + [1.0]
+            tag = "phi_too_long"
+        elif c < 0.16:
+            tags = DEF_FAULT1 if which == 1 else DEF_FAULT2
+            cs = (corrupt1 if which == 1 else corrupt2)(spec, tags[it % len(tags)], rng)
+            if cs is not None:
+                spec, tag = cs, "fault_" + tags[it % len(tags)]
+        elif c < 0.3 and which == 2:
+            # mapping / sign row labels in another order than the points: rows are matched by position
+            spec = copy.deepcopy(spec)
+            idx = list(range(1, spec["P"] + 1))
+            rng.shuffle(idx)
+            spec["map_index" if (rng.random() < 0.5 or not isinstance(spec["sign"], list)) else "sign_index"] = idx
+            tag = "labels_perm"
+        args = (defgeo1_args if which == 1 else defgeo2_args)(spec, form, arrays)
+        color = "cmap" if (which == 2 and rng.random() < 0.25 and len(set(phi)) > 1) else "red"
+        inp = defgeo_inp(which, args, spec["ref_ind"])
+        inp.update(phi=[R(v) for v in phi], scale=R(scale))
+        model = ctx.model(f"c19_plotgeo{which}", **inp)
+        res = run(drawn, S, which, args, spec["ref_ind"], phi, scale, color)
+        if "err" in model:
+            ok = err_match(model, res)
+        elif not res[0]:
+            ok = False
+        elif which == 1:
+            off, segs = res[1]
+            arrows = model["ok"]
+            ok = len(segs) == len(arrows) and all(
+                seg.shape == (2, 3) and _same_orow(a[0], seg[0], TOL) and _same_orow(a[1], seg[1], TOL) for a, seg in zip(arrows, segs))
+            if ok and all(v is not None for a in arrows for v in a[0]):
+                # (matplotlib drops NaN points from a scatter: the nodes are compared when every coordinate is a number)
+                ok = off.shape == (len(arrows), 3) and all(_same_orow(a[0], o, TOL) for a, o in zip(arrows, off))
+        else:
+            off = res[1]
+            ok = off.shape == (len(model["ok"]), 3) and all(_same_orow(m, o, TOL) for m, o in zip(model["ok"], off))
+        ctx.corr(f"plot_mode_geo{which}", ok, inp, model,
+                 _plot_summary(which, res),
+                 (tag, form, arrays, len(spec["flat"]), isinstance(spec.get("cstr"), dict), isinstance(spec.get("sign"), list),
+                  scale, color, model.get("err", "ok")))
+        ctx.count(f"plot{which}_{tag}_{model.get('err', 'ok')}")
+
+
 def correspondence(ctx):
     gen = _gen()
     corr_flatten(ctx, gen)
@@ -983,6 +1129,7 @@ def correspondence(ctx):
     corr_geo(ctx, gen, 2)
     corr_defgeo(ctx)
     corr_mapphi(ctx, gen)
+    corr_plot(ctx)
 
 
 # ----------------------------------------------------------------------------- oracle (from the statement)
